@@ -101,6 +101,13 @@ func main() {
 		for _, ps := range doubleStepSites(p, "semver", "pypi", "maven", "resolve", "resolve/npm", "resolve/maven", "resolve/pypi", "resolve/schema", "resolve/internal/deptest", "resolve/internal/versiontest", "resolve/dep", "resolve/version") {
 			fmt.Println(p.pos(ps))
 		}
+	case "debug-loopret":
+		p := loadResolve("", true)
+		for _, pk := range [][]string{{"semver"}, {"resolve"}, {"resolve/internal/attr", "resolve/dep", "resolve/version"}, {"maven", "pypi", "resolve/npm", "resolve/maven", "resolve/pypi"}} {
+			for _, lr := range loopReturns(p, threeWayFns(p, pk...)) {
+				fmt.Println(p.pos(lr.pos), fnKey(lr.fn), lr.expr, lr.ok, lr.how)
+			}
+		}
 	case "debug-sign":
 		if len(os.Args) > 2 {
 			repoRoot = os.Args[2]
